@@ -529,6 +529,12 @@ def _make_init(cls: t.Type[PaneBase], fields: t.Sequence[Field]):
     sig = Signature(params, return_annotation=None)
 
     def __init__(self: PaneBase, *args: t.Any, **kwargs: t.Any):
+        # a field kept out of __init__ still holds the product of its factory
+        # (a plain default is found on the class), on every construction path
+        for f in self.__pane_info__.fields:
+            if not f.init and f.default_factory is not None:
+                object.__setattr__(self, f.name, f.default_factory())
+
         from_dict = kwargs.pop('_pane_from_dict', None)
         if from_dict is not None:
             for (k, v) in from_dict.items():
